@@ -15,6 +15,16 @@ import (
 
 type c16Err struct{ Code int }
 
+// c16NilErr / c16NilStr: an error and a Stringer whose methods dereference the receiver; panicking with a nil
+// pointer of these types is legal, and formatting the value with %v copes with it ("<nil>" / PANIC=...).
+type c16NilErr struct{ msg string }
+
+func (e *c16NilErr) Error() string { return e.msg }
+
+type c16NilStr struct{ s string }
+
+func (x *c16NilStr) String() string { return x.s }
+
 type c16Params struct {
 	Who     string // which handler misbehaves: fg | bg | builtin-ping | builtin-433 | builtin-cap | bg-block
 	At      int    // at which event (0-based) of the sequence
@@ -22,6 +32,7 @@ type c16Params struct {
 	Custom  bool   // custom recovery hook instead of the default LogPanic
 	NEvents int
 	Late    bool // the custom hook is installed through Config() after every handler is registered and the client is connected
+	LoneBG  bool // the misbehaving background handler is the only background handler on its verb
 	Churn   bool // a well-behaved foreground handler registers a background handler at every event and removes the one it registered before
 }
 
@@ -33,6 +44,9 @@ func (p c16Params) name() string {
 	if p.Churn {
 		n += "/churn"
 	}
+	if p.LoneBG {
+		n += "/lone-bg"
+	}
 	return n
 }
 
@@ -42,6 +56,12 @@ func c16PanicValue(kind string) interface{} {
 		return errors.New("boom-error")
 	case "struct":
 		return c16Err{Code: 42}
+	case "nil-error":
+		var e *c16NilErr
+		return error(e)
+	case "nil-stringer":
+		var x *c16NilStr
+		return x
 	}
 	return "boom-string"
 }
@@ -50,7 +70,7 @@ func c16Scenario(p c16Params) *explore.Scenario {
 	sc := &explore.Scenario{
 		Family: "misbehave",
 		Name:   p.name(),
-		Params: map[string]interface{}{"who": p.Who, "at": p.At, "events": p.NEvents, "value": p.Value, "custom": p.Custom, "late": p.Late, "churn": p.Churn},
+		Params: map[string]interface{}{"who": p.Who, "at": p.At, "events": p.NEvents, "value": p.Value, "custom": p.Custom, "late": p.Late, "churn": p.Churn, "lone_bg": p.LoneBG},
 		Opt:    vx.Options{MaxSteps: 400000},
 	}
 	// the event sequence: PRIVMSGs numbered 0..n-1; a built-in handler is driven into a panic by an extra
@@ -112,7 +132,9 @@ func c16Scenario(p c16Params) *explore.Scenario {
 				vx.Observe("ev", fmt.Sprintf("good fg-churn e%d", i))
 			})
 		}
-		c.HandleBG("PRIVMSG", good("bg-a"))
+		if !p.LoneBG {
+			c.HandleBG("PRIVMSG", good("bg-a"))
+		}
 		c.HandleBG("PRIVMSG", client.HandlerFunc(func(conn *client.Conn, line *client.Line) {
 			i := evNo(line)
 			if p.Who == "bg" && i == p.At {
@@ -167,6 +189,9 @@ func c16Scenario(p c16Params) *explore.Scenario {
 		}
 		for i := 0; i < p.NEvents; i++ {
 			for _, h := range []string{"fg-a", "fg-b", "bg-a"} {
+				if h == "bg-a" && p.LoneBG {
+					continue
+				}
 				if cnt(fmt.Sprintf("good %s e%d", h, i)) != 1 {
 					bad("sibling-not-delivered", fmt.Sprintf("well-behaved handler %s ran %d times for event %d", h, cnt(fmt.Sprintf("good %s e%d", h, i)), i))
 				}
@@ -221,7 +246,8 @@ func c16Scenario(p c16Params) *explore.Scenario {
 			for _, r := range ev {
 				if strings.HasPrefix(r, "recovered ") {
 					n++
-					want := map[string]string{"string": "value=boom-string type=string", "error": "value=boom-error type=*errors.errorString", "struct": "value={42} type=harness.c16Err"}[p.Value]
+					want := map[string]string{"string": "value=boom-string type=string", "error": "value=boom-error type=*errors.errorString", "struct": "value={42} type=harness.c16Err",
+						"nil-error": "type=*harness.c16NilErr", "nil-stringer": "type=*harness.c16NilStr"}[p.Value]
 					if !builtin && !strings.HasSuffix(r, want) {
 						bad("recover-value", "the recovery function did not receive the panic value: "+r)
 					}
@@ -232,7 +258,8 @@ func c16Scenario(p c16Params) *explore.Scenario {
 			}
 		} else {
 			// "by default it is logged": some record, at whatever level, must show the panic value
-			val := map[string]string{"string": "boom-string", "error": "boom-error", "struct": "42"}[p.Value]
+			// for the typed nil values any record made while recovering counts (what %v makes of them is fmt's business)
+			val := map[string]string{"string": "boom-string", "error": "boom-error", "struct": "42", "nil-error": "", "nil-stringer": ""}[p.Value]
 			if builtin {
 				val = "index out of range"
 			}
@@ -307,7 +334,7 @@ func c16Scenario(p c16Params) *explore.Scenario {
 func init() {
 	Register(&Prop{
 		ID:   "C16",
-		Rule: "event sequences of 2-4 PRIVMSGs with three foreground and two background user handlers; at one event one handler misbehaves: user foreground / user background panics with a string, error or struct value, a built-in handler (PING without token, 433 without arguments, CAP with one argument) panics on its own input, or a background handler blocks for ever; default LogPanic or a custom recovery hook (set in the Config given to Client, or through Config() after all handlers are registered); optionally a foreground handler that registers a background handler at every event and removes the previous one; every execution within the deviation budgets; distinct = distinct canonical observation per scenario",
+		Rule: "event sequences of 2-4 PRIVMSGs with three foreground and two background user handlers; at one event one handler misbehaves: user foreground / user background panics with a string, error or struct value or a nil pointer whose Error / String method would panic, a built-in handler (PING without token, 433 without arguments, CAP with one argument) panics on its own input, or a background handler blocks for ever (next to a well-behaved one, or alone on its verb); default LogPanic or a custom recovery hook (set in the Config given to Client, or through Config() after all handlers are registered); optionally a foreground handler that registers a background handler at every event and removes the previous one; every execution within the deviation budgets; distinct = distinct canonical observation per scenario",
 		Assumptions: []string{
 			"interleavings at synchronisation/channel/socket granularity (DESIGN.md 3.8)",
 			"panic(nil) is left out: its meaning depends on the module's go directive, which the instrumented copy changes",
@@ -352,6 +379,18 @@ func init() {
 			add(c16Params{Who: "bg-block-all", At: 0, Value: "none", NEvents: 3, Churn: true})
 			add(c16Params{Who: "fg", At: 0, Value: "string", NEvents: 2, Churn: true})
 			add(c16Params{Who: "bg", At: 1, Value: "error", Custom: true, NEvents: 3, Churn: true})
+			// panic values whose own methods panic (typed nil pointers)
+			for _, who := range []string{"fg", "bg"} {
+				for _, val := range []string{"nil-error", "nil-stringer"} {
+					for _, custom := range []bool{false, true} {
+						add(c16Params{Who: who, At: 0, Value: val, Custom: custom, NEvents: 2})
+					}
+				}
+			}
+			// the misbehaving background handler is alone on its verb
+			add(c16Params{Who: "bg-block", At: 0, Value: "none", NEvents: 3, LoneBG: true})
+			add(c16Params{Who: "bg-block-all", At: 0, Value: "none", NEvents: 3, LoneBG: true})
+			add(c16Params{Who: "bg", At: 0, Value: "string", NEvents: 2, LoneBG: true})
 			add(c16Params{Who: "bg-block", At: 0, Value: "none", NEvents: 2})
 			add(c16Params{Who: "bg-block", At: 0, Value: "none", NEvents: 3})
 			add(c16Params{Who: "bg-block", At: 1, Value: "none", Custom: true, NEvents: 3})
